@@ -219,7 +219,9 @@ def run(ctx):
 
     def run_impl(cs):
         ls = ["%s %s" % (w, hx(t)) for w, t, _ in cs]
-        return ls, core.run_lines([exe], ls, env=TIMEOUT_ENV, timeout=3000)
+        # each hang costs a watchdog period: after a dozen per shard the rest of that shard is
+        # skipped (the witnesses already found are reported; skipped cases are counted, not judged)
+        return ls, core.run_lines([exe], ls, env=TIMEOUT_ENV, timeout=3000, max_bad=12)
 
     selected = [c for c in cases if not risky(c) or id(c) in keep]
     skipped = len(cases) - len(selected)
@@ -241,6 +243,8 @@ def run(ctx):
         ctx.count(w[0] + "_" + origin)
         cls = out.split(" ")[0] if out else "EMPTY"
         ctx.count(w[0] + "_" + cls)
+        if cls == "SKIPPED":
+            continue
         sline = line if len(line) < 8000 else line[:120] + "...(hex of the text, %d chars)" % len(line)
         replay = "echo '%s' | GVH_CASE_TIMEOUT_MS=2000 .work/target/release/c12" % sline
         base = {"parser": {"H": "GrmtoolsSectionParser::parse (required=%s)%s" % (w == "H1", " on an 8 MiB stack" if w == "HS" else ""), "Y": "ASTWithValidityInfo::%s + YaccGrammar::new_from_ast_with_validity_info" % ("from_str" if w == "YF" else "new, kind " + w[1:]), "L": "LRNonStreamingLexerDef::from_str"}[w[0]],
